@@ -6,6 +6,7 @@
 package main
 
 import (
+	"encoding/hex"
 	"encoding/json"
 	"flag"
 	"fmt"
@@ -24,6 +25,8 @@ import (
 	"strings"
 
 	sdk "github.com/cosmos/cosmos-sdk/types"
+	authtypes "github.com/cosmos/cosmos-sdk/x/auth/types"
+	distrtypes "github.com/cosmos/cosmos-sdk/x/distribution/types"
 	sdkvesting "github.com/cosmos/cosmos-sdk/x/auth/vesting/types"
 	"github.com/evmos/evmos/v19/encoding"
 	evmtypes "github.com/evmos/evmos/v19/x/evm/types"
@@ -768,6 +771,11 @@ func main() {
 	w("def cacheMethods : List String := %s\ndef cacheAllLocked : Bool := %v\n", leanList(mapS(methods, leanStr)), locked)
 	w("/-- every module account is on the bank's blocked list (app.go BlockedModuleAccountAddrs) -/\ndef moduleAccountsBlocked : Bool := %v\n", blockedAll(pkgs["app"]))
 	w("/-- free-form strings that reach the JSON genesis document: behaviour of the two ValidateBasic functions, observed -/\ndef utf8Guards : List String := %s\n", leanList(mapS(utf8Guards(), leanStr)))
+	var mods []string
+	for _, m := range [][2]string{{"mdistr", distrtypes.ModuleName}, {"mpool", otypes.ModuleName}, {"mcollector", authtypes.FeeCollectorName}} {
+		mods = append(mods, fmt.Sprintf("(%s, %s)", leanStr(m[0]), leanChars("0x"+hex.EncodeToString(authtypes.NewModuleAddress(m[1])))))
+	}
+	w("/-- addresses of the module accounts a history can name (protocol token, lower-case hex): distribution, oracle reward pool, fee collector -/\ndef moduleAddrs : List (String × List Char) := %s\n", leanList(mods))
 	w("end Settlus.Facts")
 
 	// translated integer functions
